@@ -7,6 +7,7 @@ import Drv.World
 import Drv.Order
 import Drv.Adapt
 import Drv.Verify
+import Drv.Method
 /-! Line-protocol driver: `driver <layer> [args]` reads operation lines on stdin and prints one
     answer line per operation, computed by the executable model definitions. -/
 def main (args : List String) : IO Unit := do
@@ -20,4 +21,5 @@ def main (args : List String) : IO Unit := do
   | "order" :: rest => Drv.Order.main rest
   | "adapt" :: rest => Drv.Adapt.main rest
   | "verify" :: _ => Drv.Verify.main
+  | "method" :: _ => Drv.Method.main
   | _ => IO.eprintln "usage: driver <layer>"
